@@ -8,6 +8,7 @@
 (*   run   number of the recorded process ("reset" starts a new one)          *)
 (*   e     "acc" | "fork" | "start" | "reset"                                 *)
 (*   g     goroutine (runtime goroutine id)        n  fork number             *)
+(*   f     the function of package symbols that made the access               *)
 (*   t     table (acc)   w  write   l  the goroutine really held the table's  *)
 (*         mutex   s  the table's shared flag at that moment                  *)
 (*   h     chains handed over: sequence of chains, a chain = sequence of      *)
@@ -24,7 +25,10 @@
 (* name the table); fork is Fork(g, child token, H, A) of Impl "fixed"; start *)
 (* is Start.  Judgement, accumulated in `bad` (the log is always consumed to  *)
 (* the end, so every offending event is reported, with its rule):             *)
-(*   Lock       an access holds the mutex iff the flag is set (Begin)         *)
+(*   I2         an access to a flagged table made without its mutex (a site   *)
+(*              that does not follow Begin) and an access by another          *)
+(*              goroutine to the same table, one of them writing               *)
+(*   Lock       the mutex of a table that is not flagged was held              *)
 (*   I1         after the event, a table two goroutines can name is flagged   *)
 (*   ForkSound  after Fork the handed chains are flagged (what Fork of the    *)
 (*              demanded protocol leaves) - observed flags must agree         *)
@@ -32,7 +36,9 @@
 (*   FlagsGrow  no flag is ever seen cleared                                  *)
 EXTENDS SharedTables, Json
 
-VARIABLES l, run, bad
+VARIABLES l, run, bad,
+          hist,    \* [table -> [r, w, ur, uw]]: goroutines that read / wrote it; ..without the mutex though flagged
+          loose    \* accesses to flagged tables without the mutex, by site (reported, not judged)
 
 TraceLog == ndJsonDeserialize("trace.ndjson")
 N == Len(TraceLog)
@@ -54,11 +60,13 @@ LSh(h) == IF h = <<>> THEN shared ELSE [x \in Tables \cup AllIds(h) |-> IF x \in
 LReach(h) == IF h = <<>> THEN reach ELSE [x \in Tables \cup AllIds(h) |-> IF x \in Tables THEN reach[x] ELSE {}]
 
 Cleared(h) == {x \in AllIds(h) \cap Tables : shared[x] /\ ~FlagOf(h, x)}
-Bad(rule, x) == [idx |-> l, run |-> run, rule |-> rule, t |-> x, g |-> Ev.g, e |-> Ev.e]
+Bad(rule, x) == [idx |-> l, run |-> run, rule |-> rule, t |-> x, g |-> Ev.g, e |-> Ev.e, f |-> Ev.f]
+NoHist == [r |-> {}, w |-> {}, ur |-> {}, uw |-> {}]
+HistOf(x) == IF x \in DOMAIN hist THEN hist[x] ELSE NoHist
 
 I1At(sh, rc, T) == {x \in T : Cardinality(rc[x]) >= 2 /\ ~sh[x]}
 
-TInit == /\ l = 1 /\ run = 0 /\ bad = {}
+TInit == /\ l = 1 /\ run = 0 /\ bad = {} /\ hist = <<>> /\ loose = {}
          /\ parent = <<>> /\ shared = <<>> /\ reach = <<>>
          /\ acc = <<>> /\ live = {} /\ born = {} /\ pend = <<>> /\ started = {}
 
@@ -66,7 +74,7 @@ Frame == UNCHANGED <<acc, live, born, pend, started>>
 
 TReset == /\ l <= N /\ Ev.e = "reset"
           /\ parent' = <<>> /\ shared' = <<>> /\ reach' = <<>>
-          /\ run' = Ev.run /\ bad' = bad /\ l' = l + 1 /\ Frame
+          /\ run' = Ev.run /\ bad' = bad /\ l' = l + 1 /\ hist' = <<>> /\ loose' = loose /\ Frame
 
 TAcc == /\ l <= N /\ Ev.e = "acc"
         /\ LET h == Ev.h
@@ -74,9 +82,20 @@ TAcc == /\ l <= N /\ Ev.e = "acc"
                sh0 == LSh(h)
                sh == [sh0 EXCEPT ![Ev.t] = Ev.s]
                rc == [LReach(h) EXCEPT ![Ev.t] = @ \cup {Ev.g}]
+               o == HistOf(Ev.t)
+               un == Ev.s /\ ~Ev.l                                  \* flagged, yet no mutex
+               others(S) == S \ {Ev.g}
+               clash == \/ un /\ (IF Ev.w THEN others(o.r \cup o.w) # {} ELSE others(o.w) # {})
+                        \/ (IF Ev.w THEN others(o.ur \cup o.uw) # {} ELSE others(o.uw) # {})
+               n == [r |-> IF Ev.w THEN o.r ELSE o.r \cup {Ev.g}, w |-> IF Ev.w THEN o.w \cup {Ev.g} ELSE o.w,
+                     ur |-> IF un /\ ~Ev.w THEN o.ur \cup {Ev.g} ELSE o.ur,
+                     uw |-> IF un /\ Ev.w THEN o.uw \cup {Ev.g} ELSE o.uw]
            IN /\ parent' = par /\ shared' = sh /\ reach' = rc
+              /\ hist' = [x \in DOMAIN hist \cup {Ev.t} |-> IF x = Ev.t THEN n ELSE hist[x]]
+              /\ loose' = IF un THEN loose \cup {[f |-> Ev.f, w |-> Ev.w]} ELSE loose
               /\ bad' = bad \cup {Bad("FlagsGrow", x) : x \in Cleared(h)}
-                            \cup (IF Ev.l # Ev.s THEN {Bad("Lock", Ev.t)} ELSE {})
+                            \cup (IF Ev.l /\ ~Ev.s THEN {Bad("Lock", Ev.t)} ELSE {})
+                            \cup (IF clash THEN {Bad("I2", Ev.t)} ELSE {})
                             \cup {Bad("I1", x) : x \in I1At(sh, rc, {Ev.t})}
         /\ run' = run /\ l' = l + 1 /\ Frame
 
@@ -92,7 +111,7 @@ TFork == /\ l <= N /\ Ev.e = "fork"
             IN /\ parent' = par /\ shared' = obs /\ reach' = rc
                /\ bad' = bad \cup {Bad("FlagsGrow", x) : x \in Cleared(h)}
                              \cup {Bad("ForkSound", x) : x \in {y \in got : want[y] # obs[y]}}
-         /\ run' = run /\ l' = l + 1 /\ Frame
+         /\ run' = run /\ l' = l + 1 /\ UNCHANGED <<hist, loose>> /\ Frame
 
 TStart == /\ l <= N /\ Ev.e = "start"
           /\ LET h == Ev.h
@@ -105,12 +124,12 @@ TStart == /\ l <= N /\ Ev.e = "start"
                 /\ bad' = bad \cup {Bad("FlagsGrow", x) : x \in Cleared(h)}
                               \cup {Bad("StartSound", x) : x \in {y \in up : ~sh[y]}}
                               \cup {Bad("I1", x) : x \in I1At(sh, rc, up)}
-          /\ run' = run /\ l' = l + 1 /\ Frame
+          /\ run' = run /\ l' = l + 1 /\ UNCHANGED <<hist, loose>> /\ Frame
 
 TDone == /\ l = N + 1
-         /\ PrintT(ToJson([n |-> N, bad |-> bad]))
-         /\ l' = N + 2 /\ UNCHANGED <<parent, shared, reach, run, bad>> /\ Frame
+         /\ PrintT(ToJson([n |-> N, bad |-> bad, loose |-> loose]))
+         /\ l' = N + 2 /\ UNCHANGED <<parent, shared, reach, run, bad, hist, loose>> /\ Frame
 
 TNext == TReset \/ TAcc \/ TFork \/ TStart \/ TDone
-TSpec == TInit /\ [][TNext]_<<vars, l, run, bad>>
+TSpec == TInit /\ [][TNext]_<<vars, l, run, bad, hist, loose>>
 =============================================================================
